@@ -14,6 +14,12 @@ ENGINES = [
 NOTES = "Property-based testing and fuzzing only. See DESIGN.md. Known findings: /verif/known_findings.json."
 NOT_APPLICABLE = {}
 CHECKS = {
+    "C19": {
+        "text": "Fault injection at a known line of accepted generated programs and samples (7 fault kinds, top level and nested blocks, single- and multi-file), mutated samples, all invalid repository samples and a catalogue of context/lexical/end-of-input errors; the rendered diagnostics are parsed leniently and judged against the source text (path, line/column range, verbatim quoted lines, fault line reported).",
+        "design_ref": "DESIGN.md section 6 C19",
+        "note": "Judges the rendered strings returned by mamba_to_python (what a user sees); the TypeErr.causes hook is not needed. Statements are injected only between two complete one-line statements of equal indentation; injected literals are unique in the file (open finding F37).",
+        "technique": "property-based testing: fault injection with a positional/well-formedness oracle over rendered diagnostics (Hypothesis)",
+    },
     "C13": {
         "text": "Generated projects (1-5 files, nested directories, cross-file class/function use, optional single faulty file, fresh or pre-populated output directory, custom directory names) run through mamba::transpile_dir in a scratch directory with a before/after snapshot of the whole tree, plus permutations of the file list, an added unrelated file and a removed used file through mamba_to_python.",
         "design_ref": "DESIGN.md section 6 C13",
